@@ -184,6 +184,9 @@ func (e *Engine) sendEnabled(st *State, ch *smt.Term) *smt.Term {
 
 func (e *Engine) doRecv(st *State, ch *smt.Term, elem types.Type, commaOk bool, closeOnly bool, lockLike bool) Value {
 	c := e.C
+	if st.PureDepth == 0 {
+		e.recordCall(st, "chan.recv", []Value{ch}, nil)
+	}
 	// a value buffered by this goroutine is consumed; on a closed channel the zero value arrives
 	closed := e.closedNow(st, ch)
 	mine := c.Select(e.chMine(st), ch)
@@ -213,6 +216,9 @@ func (e *Engine) doRecv(st *State, ch *smt.Term, elem types.Type, commaOk bool, 
 
 func (e *Engine) doSend(st *State, fr *Frame, ch *smt.Term, val Value, vt types.Type, pos string, field bool) {
 	c := e.C
+	if st.PureDepth == 0 && !fr.Pure {
+		e.recordCall(st, "chan.send", []Value{ch}, nil)
+	}
 	if !field {
 		// channels that do not come from a struct field (a ping's pong channel found in
 		// the map) are not lock-like: no ownership is tracked for them
@@ -233,9 +239,65 @@ func (e *Engine) doSend(st *State, fr *Frame, ch *smt.Term, val Value, vt types.
 	}
 }
 
+// guardSend: obligation of a "guard" declaration at a send on a guarded channel field.
+func (e *Engine) guardSend(st *State, fr *Frame, chv ssa.Value, pos string) {
+	if len(e.Guards) == 0 || st.PureDepth > 0 || fr.Pure {
+		return
+	}
+	f := chanField(chv)
+	if f == "" {
+		return
+	}
+	short := f[strings.LastIndex(f[:strings.LastIndex(f, ".")], ".")+1:]
+	g := e.Guards[short]
+	if g == nil {
+		return
+	}
+	v := chv
+	for {
+		switch x := v.(type) {
+		case *ssa.ChangeType:
+			v = x.X
+			continue
+		case *ssa.MakeInterface:
+			v = x.X
+			continue
+		}
+		break
+	}
+	fa := v.(*ssa.UnOp).X.(*ssa.FieldAddr)
+	sT, sName := structOf(fa.X.Type())
+	muField := g.Opts["mu"][strings.LastIndex(g.Opts["mu"], ".")+1:]
+	obj := e.asTerm(st, e.val(fr, fa.X), fa.X.Type())
+	for i := 0; i < sT.NumFields(); i++ {
+		if sT.Field(i).Name() != muField {
+			continue
+		}
+		mu := e.loadHeap(st, obj, sName+"."+muField, sT.Field(i).Type()).(*smt.Term)
+		mT, mName := structOf(sT.Field(i).Type())
+		for j := 0; j < mT.NumFields(); j++ {
+			if mT.Field(j).Name() == "ch" {
+				ch := e.loadHeap(st, mu, mName+".ch", mT.Field(j).Type()).(*smt.Term)
+				goal := e.C.Select(e.chMine(st), ch)
+				e.obligeNamed(st, fr, "guard", short+":held:"+muField, goal, pos, g.Tags, e.fnKey(fr.Fn))
+				return
+			}
+		}
+	}
+	e.fail("guard %s: field %s not found", short, g.Opts["mu"])
+}
+
 func (e *Engine) send(st *State, fr *Frame, x *ssa.Send) {
+	e.guardSend(st, fr, x.Chan, e.pos(x.Pos()))
 	ch := e.asTerm(st, e.val(fr, x.Chan), x.Chan.Type())
 	e.envStep(st, ch)
+	if chanField(x.Chan) == "" && st.PureDepth == 0 && !fr.Pure {
+		// A send outside a select blocks until the channel has room. The library's own
+		// mutex channels are struct fields and are meant to block; on any other channel (a
+		// ping's channel found in a map, a caller's channel) a blocking send can wedge the
+		// goroutine for good, so it is an obligation that the channel provably has room.
+		e.oblige(st, fr, "safety:blocking-send", "", e.sendEnabled(st, ch), e.pos(x.Pos()))
+	}
 	// a blocking send returns only if it was enabled
 	st.Assume(e.sendEnabled(st, ch))
 	e.doSend(st, fr, ch, e.val(fr, x.X), x.X.Type(), e.pos(x.Pos()), chanField(x.Chan) != "")
@@ -318,6 +380,7 @@ func (e *Engine) selectOp(st *State, fr *Frame, x *ssa.Select, k func(*State, Va
 		st2.Branch(cs.en)
 		st2.Trace = append(st2.Trace, p+":case"+itoa(i))
 		if cs.dir == types.SendOnly {
+			e.guardSend(st2, fr, x.States[i].Chan, p)
 			e.doSend(st2, fr, cs.ch, cs.val, cs.vt, p, cs.fld)
 			k(st2, mkResult(st2, i, nil, -1, c.False()))
 		} else {
